@@ -69,7 +69,9 @@ func rtResolve(target string) string {
 	return target
 }
 
-func rtBaseRules() []string { return []string{"a.test::" + rtNames["a.test"] + ":", "b.test::127.0.0.3:"} }
+func rtBaseRules() []string {
+	return []string{"a.test::" + rtNames["a.test"] + ":", "b.test::" + rtNames["b.test"] + ":"}
+}
 
 func getRT() (*rtEnv, error) {
 	rtOnce.Do(func() {
@@ -114,18 +116,22 @@ func getRT() (*rtEnv, error) {
 			return
 		}
 		rtNames["a.test"] = oaIP
+		// all peers of this laboratory live in the /24 found above, which no other process uses: connect-to rules
+		// combine one peer's host with another's port, and such an address must not be somebody else's listener
+		blk := strings.TrimSuffix(oaIP, "2")
+		rtNames["b.test"] = blk + "3"
 		e.oa = mk("OA", oaIP, nil, HTTPHandler(proxyResponder("OA"), nil))
-		e.ob = mk("OB", "127.0.0.3", nil, HTTPHandler(proxyResponder("OB"), nil))
+		e.ob = mk("OB", blk+"3", nil, HTTPHandler(proxyResponder("OB"), nil))
 		e.ol = mk("OL", "127.0.0.1", nil, HTTPHandler(proxyResponder("OL"), nil))
-		e.p = mk("P", "127.0.0.4", nil, HTTPHandler(proxyResponder("P"), TunnelTo(rtResolve)))
-		e.q = mk("Q", "127.0.0.5", nil, HTTPHandler(proxyResponder("Q"), TunnelTo(rtResolve)))
-		e.t = mk("T", "127.0.0.6", []string{"127.0.0.6"}, HTTPHandler(proxyResponder("T"), TunnelTo(rtResolve)))
-		e.s = mk("S", "127.0.0.7", nil, Socks5Handler(false, func(r Socks5Req) {
+		e.p = mk("P", blk+"4", nil, HTTPHandler(proxyResponder("P"), TunnelTo(rtResolve)))
+		e.q = mk("Q", blk+"5", nil, HTTPHandler(proxyResponder("Q"), TunnelTo(rtResolve)))
+		e.t = mk("T", blk+"6", []string{blk + "6"}, HTTPHandler(proxyResponder("T"), TunnelTo(rtResolve)))
+		e.s = mk("S", blk+"7", nil, Socks5Handler(false, func(r Socks5Req) {
 			e.mu.Lock()
 			e.socks = append(e.socks, r)
 			e.mu.Unlock()
 		}, rtResolve))
-		e.r = mk("R", "127.0.0.8", nil, HTTPHandler(proxyResponder("R"), TunnelTo(rtResolve)))
+		e.r = mk("R", blk+"8", nil, HTTPHandler(proxyResponder("R"), TunnelTo(rtResolve)))
 		if rtErr == nil {
 			rt = e
 		}
@@ -204,9 +210,9 @@ type RTCase struct {
 }
 
 var pacResults = []string{"DIRECT", "", "PROXY @P", "PROXY @Q", "HTTP @P", "HTTPS @T", "SOCKS5 @S", "SOCKS @S", "SOCKS4 @S", "FOO @P", "proxy @P",
-	"PROXY @P; PROXY @Q", "PROXY @Q; DIRECT", "DIRECT; PROXY @P", "; PROXY @P", "PROXY", "PROXY 127.0.0.4", "@THROW", "@NUMBER", "@NULL", "HTTPS @T; SOCKS5 @S", "SOCKS5 @S; PROXY @P",
+	"PROXY @P; PROXY @Q", "PROXY @Q; DIRECT", "DIRECT; PROXY @P", "; PROXY @P", "PROXY", "PROXY @P.host", "@THROW", "@NUMBER", "@NULL", "HTTPS @T; SOCKS5 @S", "SOCKS5 @S; PROXY @P",
 	// a first entry that cannot be parsed, followed by one that can: the request fails, the later entry is not a fallback
-	"PROXY 127.0.0.4; PROXY @Q", "PROXY @P.host:http; DIRECT", "PROXY :80; PROXY @Q", "HTTP @P extra; PROXY @Q", "PROXY; PROXY @Q", "HTTPS @T.host:99999; PROXY @P", "SOCKS5 @S.host; DIRECT"}
+	"PROXY @P.host; PROXY @Q", "PROXY @P.host:http; DIRECT", "PROXY :80; PROXY @Q", "HTTP @P extra; PROXY @Q", "PROXY; PROXY @Q", "HTTPS @T.host:99999; PROXY @P", "SOCKS5 @S.host; DIRECT"}
 
 func (e *rtEnv) subst(s string) string {
 	for n, p := range e.peers {
@@ -336,7 +342,7 @@ func genRTConfig(t *rapid.T, withCreds bool) RTConfig {
 		}
 		pool := []string{"pxuser:pxsecret-exact@@P", "pxuser:pxsecret-q@@Q", "pxuser:pxsecret-t@@T", "pxuser:pxsecret-s@@S",
 			"siteuser:sitesecret-a@a.test:@OA.port", "siteuser:sitesecret-hostwild@a.test:*", "siteuser:sitesecret-portwild@*:@OB.port",
-			"siteuser:sitesecret-l@localhost:@OL.port", "siteuser:sitesecret-global@*:*", "siteuser:sitesecret-portwild-a@*:@OA.port", "pxuser:pxsecret-hostwild@127.0.0.4:*",
+			"siteuser:sitesecret-l@localhost:@OL.port", "siteuser:sitesecret-global@*:*", "siteuser:sitesecret-portwild-a@*:@OA.port", "pxuser:pxsecret-hostwild@@P.host:*",
 			"siteuser:sitesecret-a443@a.test:443", "siteuser:sitesecret-a80@a.test:80", "siteuser:sitesecret-any443@*:443", "siteuser:sitesecret-any80@*:80"}
 		c.MITM = rapid.IntRange(0, 4).Draw(t, "mitm") == 0
 		seen := map[string]bool{}
@@ -561,7 +567,9 @@ func (e *rtEnv) startProxy(cfg RTConfig) (*ProxyInst, error) {
 	// net/http completes dials - CONNECT included - in the background, and a loaded peer may log a message long after
 	// it was sent; what a peer logs is attributed by the tag, not by the time it is logged
 	tag := fmt.Sprintf("case-%d", caseSeq.Add(1))
+	seen := &seenReqs{}
 	o.ReqMods = append(o.ReqMods, forwarder.RequestModifierFunc(func(req *http.Request) error {
+		seen.add(fmt.Sprintf("%s %s (X-Vid %q, from %s)", req.Method, req.URL.String(), req.Header.Get("X-Vid"), req.RemoteAddr))
 		req.Header.Set("X-Case", tag)
 		return nil
 	}))
@@ -569,8 +577,27 @@ func (e *rtEnv) startProxy(cfg RTConfig) (*ProxyInst, error) {
 	px, err := StartProxy(o)
 	if px != nil {
 		px.Tag = tag
+		px.Seen = seen.list
 	}
 	return px, err
+}
+
+// seenReqs: what an instance was asked to do, for the failure message of a dial nobody seems to have asked for.
+type seenReqs struct {
+	mu sync.Mutex
+	l  []string
+}
+
+func (s *seenReqs) add(x string) {
+	s.mu.Lock()
+	s.l = append(s.l, x)
+	s.mu.Unlock()
+}
+
+func (s *seenReqs) list() []string {
+	s.mu.Lock()
+	defer s.mu.Unlock()
+	return append([]string(nil), s.l...)
 }
 
 type rtObs struct {
@@ -582,6 +609,8 @@ type rtObs struct {
 	newMsgs  map[string][]*Msg // every request recorded per peer during the exchange (CONNECTs carry no X-Vid)
 	socksReq []Socks5Req
 	servedBy string
+	seen     []string // requests the instance has received so far (diagnostics)
+	pxAddr   string
 }
 
 // rtExchange performs one request through px and reports what happened.
@@ -711,6 +740,10 @@ func (e *rtEnv) rtExchange(px *ProxyInst, r RTReq, vid string) rtObs {
 			}
 		}
 	}
+	if px.Seen != nil {
+		o.seen = px.Seen()
+	}
+	o.pxAddr = px.Addr
 	e.mu.Lock()
 	o.socksReq = append(o.socksReq, e.socks[s0:]...)
 	if len(e.socks) > 500 {
@@ -806,7 +839,7 @@ func judgeRoute(e *rtEnv, cfg RTConfig, r RTReq, i int, x route, o rtObs) (fails
 	}
 	for _, d := range o.dials {
 		if d != x.hopAddr {
-			fails = append(fails, vstat.Failf(key("wrong-dial"), "the proxy dialled %s, the configuration selects %s: %s", d, x.hopAddr, desc))
+			fails = append(fails, vstat.Failf(key("wrong-dial"), "the proxy dialled %s, the configuration selects %s: %s; the instance (listening on %s) has received these requests so far: %q", d, x.hopAddr, desc, o.pxAddr, o.seen))
 		}
 	}
 	if x.peer == "" {
